@@ -193,8 +193,8 @@ def r93(chk, m):
     for f, want in ((cl, (('label', ('LBL',)),)), (cr, (('ref', ('PARENT', 'argname', 'LBL')),))):
         hk = CH()
         hk.should_inline = A.private_only
-        it = A.Interp(model=m, scope=f, hooks=hk, max_iter=2, exc_edges=False, inline=2)
-        outs = it.run_function(f, env={'tokens': A.Sym('tokens'), 'kwargs': {'parentNode': P, 'name': 'argname'}})
+        it = A.Interp(model=m, scope=f, hooks=hk, max_iter=2, exc_edges=False, inline=3, heap=True, precise_exc=True)
+        outs = it.run_function(f, env={'self': A.Obj('tex', {}, cls=TeXc), 'tokens': A.Sym('tokens'), 'kwargs': {'parentNode': P, 'name': 'argname'}})
         got = {(kind, s2.env.get('__ctxcalls', ()), v if isinstance(v, str) else 'TOP') for kind, s2, v in outs}
         chk.decide(R, '%s calls the context' % f.name, {repr(g) for g in got}, {repr(('return', want, 'LBL'))},
                    '%s gives (outcome, context calls, result) = %s; expected the call %s with the cast string, which is also returned'
